@@ -109,18 +109,21 @@ type FlushRec struct {
 }
 
 type ReqSpec struct {
-	ID      string
-	Method  string
-	Host    string
-	Path    string // raw request target
-	Header  [][2]string
-	Plan    string
-	Body    []byte
-	Chunked bool
-	TLS     bool
-	Cookie  string
-	Upgrade bool
-	Remote  string
+	// SlowClient: the client takes the response slowly: every Write of the response is a scheduling point (between the
+	// handler producing the bytes and the connection taking them)
+	SlowClient bool
+	ID         string
+	Method     string
+	Host       string
+	Path       string // raw request target
+	Header     [][2]string
+	Plan       string
+	Body       []byte
+	Chunked    bool
+	TLS        bool
+	Cookie     string
+	Upgrade    bool
+	Remote     string
 	// CancelAfter cancels the request context after this virtual duration (client abort)
 	CancelAfter time.Duration
 	// body arrives in pieces with gaps
@@ -467,6 +470,9 @@ func (rw *respWriter) Write(p []byte) (int, error) {
 	}
 	if rw.obs.Spec.Method == "HEAD" {
 		return len(p), nil
+	}
+	if rw.obs.Spec.SlowClient {
+		vsched.HarnessPoint("resp-write")
 	}
 	rw.body.Write(p)
 	return len(p), nil
